@@ -159,14 +159,30 @@ Definition prune_map (limit : Z) (el : eid -> elem) (m : list (name * eid)) : li
   else prune_n (length m) (Z.to_nat limit) el m.
 
 (* ---------- Commit ---------- *)
-Definition commit_one (bad : bool) (st : state) (ne : name * eid) : state :=
+(* safe = the repaired manager: an entry is removed only if it still is the
+   element in question, and a successful Commit discards whatever ELSE is
+   registered under a name the transaction has written *)
+Definition remove_if (n : name) (e : eid) (m : list (name * eid)) : list (name * eid) :=
+  match lookup n m with
+  | Some e' => if Nat.eqb e' e then remove_key n m else m
+  | None => m
+  end.
+Definition commit_one (safe bad : bool) (st : state) (ne : name * eid) : state :=
   let (n, e) := ne in
   let E := elems st e in
-  if bad then set_map (set_elem st e (e_set_writer (e_scrap E) None false)) (remove_key n (mmap st))
+  if bad then set_map (set_elem st e (e_set_writer (e_scrap E) None false))
+                      (if safe then remove_if n e (mmap st) else remove_key n (mmap st))
   else let v := S (committed st n) in
-       set_committed (set_elem st e (e_set_writer (e_set_built E v) None false)) (upd (committed st) n v).
-Definition commit_all (bad : bool) (st : state) (w : list (name * eid)) : state :=
-  fold_left (commit_one bad) w st.
+       let st1 := set_committed (set_elem st e (e_set_writer (e_set_built E v) None false)) (upd (committed st) n v) in
+       if safe then
+         match lookup n (mmap st) with
+         | Some cur => if Nat.eqb cur e then st1
+                       else set_map (set_elem st1 cur (e_scrap (elems st1 cur))) (remove_key n (mmap st))
+         | None => st1
+         end
+       else st1.
+Definition commit_all (safe bad : bool) (st : state) (w : list (name * eid)) : state :=
+  fold_left (commit_one safe bad) w st.
 
 Definition free (l : option tid) : bool := match l with None => true | Some _ => false end.
 Definition fresh_elem (n : name) (owner : option tid) (writer : option tid) (readers : list tid) (v l : nat) : elem :=
@@ -174,7 +190,7 @@ Definition fresh_elem (n : name) (owner : option tid) (writer : option tid) (rea
 (* allocate a new element: returns the state with the element stored at nexte *)
 Definition alloc (st : state) (E : elem) : state := bump_next (tick (set_elem st (nexte st) E)).
 
-Definition step (fixed : bool) (limit : Z) (st : state) (t : tid) : option state :=
+Definition step (fixed safe : bool) (limit : Z) (st : state) (t : tid) : option state :=
   let T := txs st t in
   match ph T with
   | PIdle =>
@@ -186,12 +202,18 @@ Definition step (fixed : bool) (limit : Z) (st : state) (t : tid) : option state
                | [] => Some (set_tx st t (tx_commit T))
                | _ :: _ =>
                    if free (mlock st)
-                   then Some (set_tx (commit_all (failed T || fl) st (written T)) t (tx_commit T))
+                   then Some (set_tx (commit_all safe (failed T || fl) st (written T)) t (tx_commit T))
                    else None
                end
       | OWith n ro oc :: _ =>
           if failed T then Some (set_tx st t (tx_ret T true))
-          else if free (mlock st) then
+          else match (if safe && negb (done T) then lookup n (written T) else None) with
+          | Some e =>
+              (* safe: a cache the transaction holds the write lock of is used as it is,
+                 registered or not (no manager section) *)
+              Some (set_tx st t (tx_ph T (PScrap (mkW n ro oc) e None)))
+          | None =>
+          if free (mlock st) then
             match lookup n (mmap st) with
             | Some e =>
                 Some (set_tx (tick (set_elem st e (e_set_last (elems st e) (clock st)))) t
@@ -201,6 +223,7 @@ Definition step (fixed : bool) (limit : Z) (st : state) (t : tid) : option state
                 else Some (set_tx (set_mlock st (Some t)) t (tx_ph T (PCreate (mkW n ro oc))))
             end
           else None
+          end
       end
   | PCreate w =>
       match w_oc w with
@@ -219,7 +242,7 @@ Definition step (fixed : bool) (limit : Z) (st : state) (t : tid) : option state
       end
   | PLock w e =>
       if w_ro w then
-        if has_key (w_n w) (written T) then Some (set_tx st t (tx_ph T (PScrap w e None)))
+        if negb safe && has_key (w_n w) (written T) then Some (set_tx st t (tx_ph T (PScrap w e None)))
         else match e_writer (elems st e) with
              | None =>
                  Some (set_tx (set_elem st e (e_set_readers (elems st e) (t :: e_readers (elems st e)))) t
@@ -235,7 +258,7 @@ Definition step (fixed : bool) (limit : Z) (st : state) (t : tid) : option state
              end
       else
         if fixed && done T then Some (set_tx st t (tx_ret T true))
-        else if has_key (w_n w) (written T) then Some (set_tx st t (tx_ph T (PScrap w e None)))
+        else if negb safe && has_key (w_n w) (written T) then Some (set_tx st t (tx_ph T (PScrap w e None)))
         else match e_writer (elems st e) with
              | None => Some (set_tx (set_elem st e (e_set_writer (elems st e) (Some t) false)) t
                                (tx_ph T (PWait w e)))
@@ -266,7 +289,8 @@ Definition step (fixed : bool) (limit : Z) (st : state) (t : tid) : option state
       end
   | PErr w c =>
       if free (mlock st)
-      then Some (set_tx (set_map st (remove_key (w_n w) (mmap st))) t
+      then Some (set_tx (set_map st (if safe then remove_if (w_n w) (c_e c) (mmap st)
+                                        else remove_key (w_n w) (mmap st))) t
                    (tx_ph T (PRet true (c_rl c) (c_sh c) (c_pf c))))
       else None
   | PRet err rl pr pf =>
@@ -285,18 +309,18 @@ Definition step (fixed : bool) (limit : Z) (st : state) (t : tid) : option state
 
 Inductive label := LT (t : tid) | LDel (n : name).
 
-Definition lstep (fixed : bool) (limit : Z) (st : state) (l : label) : option state :=
+Definition lstep (fixed safe : bool) (limit : Z) (st : state) (l : label) : option state :=
   match l with
-  | LT t => step fixed limit st t
+  | LT t => step fixed safe limit st t
   | LDel n => if free (mlock st) then Some (set_map st (remove_key n (mmap st))) else None
   end.
 (* a choice that is not enabled (blocked, finished) is skipped *)
-Definition next (fixed : bool) (limit : Z) (st : state) (l : label) : state :=
-  match lstep fixed limit st l with Some st' => st' | None => st end.
-Fixpoint run (fixed : bool) (limit : Z) (ls : list label) (st : state) : state :=
+Definition next (fixed safe : bool) (limit : Z) (st : state) (l : label) : state :=
+  match lstep fixed safe limit st l with Some st' => st' | None => st end.
+Fixpoint run (fixed safe : bool) (limit : Z) (ls : list label) (st : state) : state :=
   match ls with
   | [] => st
-  | l :: r => run fixed limit r (next fixed limit st l)
+  | l :: r => run fixed safe limit r (next fixed safe limit st l)
   end.
 
 Definition noelem : elem := mkE 0 None None false [] false 0 0.
@@ -305,8 +329,8 @@ Definition init (progs : list (list op)) : state :=
   mkS (fun _ => noelem) 0 [] None (fun _ => 0) 0
       (fun t => match nth_error progs t with Some p => mkT p PIdle [] false false [] | None => notx end).
 
-Definition reachable (fixed : bool) (limit : Z) (st : state) : Prop :=
-  exists progs ls, st = run fixed limit ls (init progs).
+Definition reachable (fixed safe : bool) (limit : Z) (st : state) : Prop :=
+  exists progs ls, st = run fixed safe limit ls (init progs).
 
 (* ---------- the predicates of the property ---------- *)
 Definition finished (T : tx) : Prop := ph T = PIdle /\ prog T = [].
@@ -357,10 +381,10 @@ Definition disjoint_writers (st : state) : Prop :=
   forall t t' n, active_writer st t n -> active_writer st t' n -> t = t'.
 
 (* P holds in every state along the run of ls from st *)
-Fixpoint always (P : state -> Prop) (fixed : bool) (limit : Z) (ls : list label) (st : state) : Prop :=
+Fixpoint always (P : state -> Prop) (fixed safe : bool) (limit : Z) (ls : list label) (st : state) : Prop :=
   match ls with
   | [] => P st
-  | l :: r => P st /\ always P fixed limit r (next fixed limit st l)
+  | l :: r => P st /\ always P fixed safe limit r (next fixed safe limit st l)
   end.
 
 (* coherent: every registered, non-scrapped element that no writer holds or
@@ -403,12 +427,12 @@ Definition no_writer_on_scrappedb (st : state) (l : label) : bool :=
             end
   | LDel _ => true
   end.
-Definition clean_at (fixed : bool) (limit : Z) (st : state) (l : label) : Prop :=
-  keeps st (next fixed limit st l) /\ no_writer_on_scrappedb st l = true.
-Fixpoint clean (fixed : bool) (limit : Z) (ls : list label) (st : state) : Prop :=
+Definition clean_at (fixed safe : bool) (limit : Z) (st : state) (l : label) : Prop :=
+  keeps st (next fixed safe limit st l) /\ no_writer_on_scrappedb st l = true.
+Fixpoint clean (fixed safe : bool) (limit : Z) (ls : list label) (st : state) : Prop :=
   match ls with
   | [] => True
-  | l :: r => clean_at fixed limit st l /\ clean fixed limit r (next fixed limit st l)
+  | l :: r => clean_at fixed safe limit st l /\ clean fixed safe limit r (next fixed safe limit st l)
   end.
 (* boolean version for transactions 0..ntx-1 (used by Run_C11 to cross-check the
    tag the harness puts on schedules that meet the precondition of F6) *)
@@ -424,13 +448,13 @@ Definition keepsb (ntx : nat) (st st' : state) : bool :=
              | Some e' => Nat.eqb e' (snd ne)
              | None => false
              end) (mmap st).
-Definition clean_atb (ntx : nat) (fixed : bool) (limit : Z) (st : state) (l : label) : bool :=
-  keepsb ntx st (next fixed limit st l) && no_writer_on_scrappedb st l.
+Definition clean_atb (ntx : nat) (fixed safe : bool) (limit : Z) (st : state) (l : label) : bool :=
+  keepsb ntx st (next fixed safe limit st l) && no_writer_on_scrappedb st l.
 
-Fixpoint cleanb (ntx : nat) (fixed : bool) (limit : Z) (ls : list label) (st : state) : bool :=
+Fixpoint cleanb (ntx : nat) (fixed safe : bool) (limit : Z) (ls : list label) (st : state) : bool :=
   match ls with
   | [] => true
-  | l :: r => clean_atb ntx fixed limit st l && cleanb ntx fixed limit r (next fixed limit st l)
+  | l :: r => clean_atb ntx fixed safe limit st l && cleanb ntx fixed safe limit r (next fixed safe limit st l)
   end.
 
 (* the current access of the transaction is read-only *)
@@ -462,33 +486,33 @@ Fixpoint wf_prog (p : list op) : Prop :=
    boolean carried along is the conjunction of clean_atb over the fine steps. *)
 Definition at_pause (p : phase) : bool :=
   match p with PIdle | PIn _ _ => true | _ => false end.
-Definition fstep (ntx : nat) (fixed : bool) (limit : Z) (sb : state * bool) (l : label) : option (state * bool) :=
-  match lstep fixed limit (fst sb) l with
-  | Some st' => Some (st', snd sb && clean_atb ntx fixed limit (fst sb) l)
+Definition fstep (ntx : nat) (fixed safe : bool) (limit : Z) (sb : state * bool) (l : label) : option (state * bool) :=
+  match lstep fixed safe limit (fst sb) l with
+  | Some st' => Some (st', snd sb && clean_atb ntx fixed safe limit (fst sb) l)
   | None => None
   end.
-Fixpoint drive_more (ntx fuel : nat) (fixed : bool) (limit : Z) (sb : state * bool) (t : tid) : state * bool :=
+Fixpoint drive_more (ntx fuel : nat) (fixed safe : bool) (limit : Z) (sb : state * bool) (t : tid) : state * bool :=
   match fuel with
   | O => sb
   | S f => if at_pause (ph (txs (fst sb) t)) then sb
-           else match fstep ntx fixed limit sb (LT t) with
-                | Some sb' => drive_more ntx f fixed limit sb' t
+           else match fstep ntx fixed safe limit sb (LT t) with
+                | Some sb' => drive_more ntx f fixed safe limit sb' t
                 | None => sb
                 end
   end.
-Definition drive (ntx : nat) (fixed : bool) (limit : Z) (sb : state * bool) (l : label) : state * bool :=
-  match fstep ntx fixed limit sb l with
-  | Some sb' => match l with LT t => drive_more ntx 16 fixed limit sb' t | LDel _ => sb' end
+Definition drive (ntx : nat) (fixed safe : bool) (limit : Z) (sb : state * bool) (l : label) : state * bool :=
+  match fstep ntx fixed safe limit sb l with
+  | Some sb' => match l with LT t => drive_more ntx 16 fixed safe limit sb' t | LDel _ => sb' end
   | None => sb
   end.
 (* transactions blocked inside With move on as soon as they can *)
-Fixpoint settle_list (ntx : nat) (fixed : bool) (limit : Z) (ts : list tid) (sb : state * bool) : state * bool :=
+Fixpoint settle_list (ntx : nat) (fixed safe : bool) (limit : Z) (ts : list tid) (sb : state * bool) : state * bool :=
   match ts with
   | [] => sb
-  | t :: r => settle_list ntx fixed limit r (drive_more ntx 16 fixed limit sb t)
+  | t :: r => settle_list ntx fixed safe limit r (drive_more ntx 16 fixed safe limit sb t)
   end.
-Fixpoint settle (fuel : nat) (fixed : bool) (limit : Z) (ntx : nat) (sb : state * bool) : state * bool :=
+Fixpoint settle (fuel : nat) (fixed safe : bool) (limit : Z) (ntx : nat) (sb : state * bool) : state * bool :=
   match fuel with
   | O => sb
-  | S f => settle f fixed limit ntx (settle_list ntx fixed limit (seq 0 ntx) sb)
+  | S f => settle f fixed safe limit ntx (settle_list ntx fixed safe limit (seq 0 ntx) sb)
   end.
